@@ -31,37 +31,125 @@ def name_of_model(model, seq):
     return ''.join(chr(model.eval(c, model_completion=True).as_long()) for c in seq.items)
 
 
-def run_symbolic(mod, res, tag):
+def identifier_sources(mod):
+    """M02b: every construction of a JsIdent in the crate's MIR and the call that produced its name.
+    -> (public producers, private producers, other sites)"""
+    import re
+    pub, priv, other = {}, {}, []
+    for name in mod.index:
+        h = mod.headers[name]
+        if not h.startswith('fn '):
+            continue
+        text = '\n'.join(mod.text[a:b].split('\n', 1)[-1] for a, b in mod.index[name])
+        if 'JsIdent {' not in text:
+            continue
+        for m in re.finditer(r'= JsIdent \{ name: (?:move|copy) (_\d+) \};', text):
+            loc = m.group(1)
+            for _ in range(4):      # look through `x = <String as Clone>::clone(&y)`
+                d = re.search(r'^\s+' + loc + r' = <String as Clone>::clone\((?:move|copy) (_\d+)\) -> \[return', text, re.M)
+                if d is None:
+                    break
+                r = re.search(r'^\s+' + d.group(1) + r' = &(_\d+);', text, re.M)
+                if r is None:
+                    break
+                loc = r.group(1)
+            d = re.search(r'^\s+' + loc + r' = (?!&)([^;\n]*?)\((.*)\) -> \[return', text, re.M)
+            if d is None:
+                other.append((name, 'name taken from %s (parameter / field)' % loc))
+                continue
+            callee = d.group(1).strip()
+            if mod.has(callee) and re.search(r'\(_1: usize\) -> String', mod.headers[callee]):
+                pub.setdefault(callee, []).append(name)
+            elif re.search(r'fmt::format|format_inner|must_use', callee):
+                inner = [c for c in re.findall(r'= (\w[\w:]*)\(copy _\d+\) -> \[return', text) if mod.has(c) and re.search(r'\(_1: usize\) -> String', mod.headers[c])]
+                tmpl = re.findall(r'const b"((?:[^"\\]|\\.)*)"', text)
+                if len(inner) == 1 and tmpl and tmpl[0].startswith('\\x01$'):
+                    priv.setdefault(inner[0], []).append(name)
+                else:
+                    other.append((name, 'formatted name with template %r' % (tmpl[:1],)))
+            elif re.search(r'as Clone>::clone$', callee):
+                continue
+            else:
+                other.append((name, 'name produced by %s' % callee))
+    return pub, priv, other
+
+
+def run_symbolic(mod, res, tag, producer=None):
     exe = Executor(mod, contracts.TABLE, max_visits=8)
     idv = z3.Int('id_' + tag)
     exe.base = [idv >= 0, idv < ID_BOUND]
-    fn = mod.find(r'(^|::)get_var_name$')
+    fn = mod.find(r'(^|::)get_var_name$') if producer is None else mod.get(producer)
     done = exe.run(fn.name, [idv])
     res.solver_time += exe.stats['solver_time']
     return exe, idv, done, fn
+
+
+def e2e_replay(idc):
+    """compile `<v/>`*n + a wx:for block for n just below the id and let node parse the result (sloppy and strict)"""
+    import subprocess, os
+    reqs = []
+    ns = [n for n in range(max(0, idc - 48), idc + 1)]
+    for n in ns:
+        reqs.append({'files': [['a', '<v/>' * n + '<block wx:for="{{ list }}" wx:key="id"><t a="{{ item.a }}">{{ index }}</t></block>']], 'want': ['gen_object']})
+    r = common.replay(['tmpl'], stdin=json.dumps(reqs), timeout=600)
+    outs = json.loads(r.stdout)
+    js = 'const vm=require("vm");const d=JSON.parse(require("fs").readFileSync(0,"utf8"));let bad=[];' \
+         'd.forEach((s,i)=>{for(const p of ["","\'use strict\';"]){try{new vm.Script(p+"("+s+")")}catch(e){bad.push([i,String(e)]);break}}});console.log(JSON.stringify(bad))'
+    srcs = [o.get('gen_object') or '' for o in outs]
+    p = subprocess.run(['node', '-e', js], input=json.dumps(srcs), stdout=subprocess.PIPE, stderr=subprocess.PIPE, text=True, timeout=600)
+    bad = json.loads(p.stdout)
+    return [(ns[i], e) for i, e in bad]
 
 
 def main(tier):
     res = Result('C02', 'other')
     res.engines = ['M (MIR symbolic execution + z3 Int encoding)']
     mod = Module(common.mir_dump('tc'))
-    exe, idv, done, fn = run_symbolic(mod, res, 'a')
-    res.functions.append({'fn': 'proc_gen::get_var_name(usize) -> String', 'mir_lines': fn.text_lines,
-                          'contracts': sorted(exe.stats.get('contracts_used', {}))})
+    pub, priv, other = identifier_sources(mod)
+    res.coverage['identifier_sources'] = {'public': {k: [x.split('::')[-1] for x in v] for k, v in pub.items()},
+                                          'private ($-prefixed)': {k: [x.split('::')[-1] for x in v] for k, v in priv.items()},
+                                          'other': [[a.split('::')[-1], b] for a, b in other]}
+    for site, why in other:
+        if site.endswith('>::new'):
+            continue      # JsIdent::new(String): callers pass the fixed parameter names of to_proc_gen_function_args
+        res.inconc('identifier source not analysed: %s (%s)' % (site, why))
+    if not pub:
+        res.inconc('no public identifier producer found: adapt the harness')
+    totals = {'queries': 0, 'paths': 0}
+    for producer in sorted(set(pub) | set(priv)):
+        check_producer(mod, res, tier, producer, producer in pub, totals)
     res.bounds = {'id': '[0, 2^24)  (public identifiers start at 26; > 16M declarations, property names >= 200k)',
                   'loop_unwinding': 8, 'unwinding_assertion': True}
     res.assumptions = ['String::new / String::push modelled as a char sequence (contract table)',
                        'machine integers as mathematical integers with the overflow-checks=on asserts as obligations',
-                       'const tables VAR_NAME_CHARS / VAR_NAME_START_CHARS read from the MIR dump of the current tree']
+                       'const tables VAR_NAME_CHARS / VAR_NAME_START_CHARS read from the MIR dump of the current tree',
+                       'identifier sources = constructions of JsIdent in the MIR of the crate (def-use scan, M02b)']
     res.outside = ['validity of whole artefacts for arbitrary templates', 'gen_lit_str (core Debug for str; see C12)',
                    'inline script bodies', 'ids >= 2^24']
+    res.coverage.update({
+        'explanation': 'engine M: every function that produces the name of a JsIdent (MIR def-use scan) is executed symbolically; '
+                       'for each returning path the solver decides alphabet, reserved-word, protocol-letter '
+                       'and injectivity queries over ALL ids below 2^24 (integer encoding, div/rem by the table lengths).',
+        'obligations': totals['queries'], 'discharged': res.queries.get('unsat', 0),
+        'evaluations': totals['queries'], 'distinct_nontrivial': totals['queries'], 'paths': totals['paths']})
+    return res.finish()
+
+
+def check_producer(mod, res, tier, producer, is_public, totals):
+    exe, idv, done, fn = run_symbolic(mod, res, 'a', producer)
+    hook = producer == 'get_var_name'
+    res.functions.append({'fn': 'proc_gen::%s(usize) -> String' % producer, 'mir_lines': fn.text_lines, 'public': is_public,
+                          'contracts': sorted(exe.stats.get('contracts_used', {}))})
     returned = [p for p in done if p.status == 'returned']
-    log('[C02] get_var_name: %d paths (%d returned), %d findings from execution' % (len(done), len(returned), len(exe.findings)))
+    log('[C02] %s: %d paths (%d returned), %d findings from execution' % (producer, len(done), len(returned), len(exe.findings)))
     queries = []     # (description, assertions, expect_unsat)
 
     # (0) panic freedom / unwinding (findings recorded by the executor)
     for f in exe.findings:
         idc = f.model.eval(idv, model_completion=True).as_long() if f.model is not None else None
+        if not hook:
+            res.inconc('execution finding %s in %s for id=%s (no native hook for this producer)' % (f.kind, producer, idc))
+            continue
         r = common.replay(['get-var-name', str(idc)])
         out = json.loads(r.stdout)[0] if r.returncode == 0 else {'panic': 'tool'}
         if isinstance(out, dict) and 'panic' in out:
@@ -98,7 +186,8 @@ def main(tier):
             if len(w) != L:
                 continue
             eq = z3.And([c == ord(ch) for c, ch in zip(name.items, w)])
-            queries.append(('reserved %s' % w, exe.base + p.pc + [idv >= PUBLIC_START, eq], ('reserved', w), p, name))
+            if is_public:
+                queries.append(('reserved %s' % w, exe.base + p.pc + [idv >= PUBLIC_START, eq], ('reserved', w), p, name))
     # (3) single-letter protocol names A..Z are only produced for id < 26
     for L, p, name in named:
         if L != 1:
@@ -108,7 +197,7 @@ def main(tier):
     # (4) injectivity, decomposed so that the solver never has to invert the 52/63-way table terms:
     #     (4a) each const table the name characters are read from has pairwise distinct entries, hence equal
     #          characters imply equal table indices;  (4b) two ids with the same length and the same index vector are equal.
-    exe2, idb, done2, _ = run_symbolic(mod, res, 'b')
+    exe2, idb, done2, _ = run_symbolic(mod, res, 'b', producer)
     named2 = [(len(p.result.items), p, p.result) for p in done2 if p.status == 'returned']
     tables_seen = {}
     for L, p, name in named:
@@ -161,6 +250,16 @@ def main(tier):
         # sat: replay natively
         idc = model.eval(idv, model_completion=True).as_long()
         predicted = name_of_model(model, name)
+        if not hook:
+            bad = e2e_replay(idc) if cls in ('reserved', 'alphabet') else []
+            res.coverage['traces_validated_against_impl'] = res.coverage.get('traces_validated_against_impl', 0) + 1
+            if bad:
+                res.violation({'engine': 'M', 'harness': 'M02a', 'class': cls + (':' + word if word else '')},
+                              '%s(%d) = %r is used as an identifier: the generated code of a template with %d elements before a wx:for does not parse (%s)' % (
+                                  producer, idc, predicted, bad[0][0], bad[0][1][:80]), {'id': idc, 'name': predicted, 'elements': bad[0][0]})
+            else:
+                res.inconc('%s: %s(%d) = %r predicted, not confirmed end to end' % (desc, producer, idc, predicted))
+            continue
         r = common.replay(['get-var-name', str(idc)])
         real = json.loads(r.stdout)[0] if r.returncode == 0 else None
         res.coverage['traces_validated_against_impl'] = res.coverage.get('traces_validated_against_impl', 0) + 1
@@ -178,6 +277,10 @@ def main(tier):
         res.sample({'query': desc, 'verdict': 'sat', 'id': idc, 'name': real})
 
     # translator validation on concrete ids (Serval-style): boundary ids through both the encoding and the real function
+    if not hook:
+        totals['queries'] += len(queries) + 1
+        totals['paths'] += len(done)
+        return
     probe = [0, 25, 26, 51, 52, 53, 52 * 63 - 1, 52 * 63, 52 * 63 + 1, 2218, 178875, 52 * 63 ** 2, 52 * 63 ** 3, ID_BOUND - 1,
              (res.seed * 7919 + 104729) % ID_BOUND]
     r = common.replay(['get-var-name'] + [str(i) for i in probe])
@@ -194,20 +297,17 @@ def main(tier):
         else:
             agree += 1
     res.coverage['traces_validated_against_impl'] = res.coverage.get('traces_validated_against_impl', 0) + agree
-    res.coverage.update({
-        'explanation': 'engine M: the MIR of get_var_name (regenerated from the working tree) is executed symbolically; '
-                       'for each of the %d returning paths the solver decides alphabet, reserved-word, protocol-letter '
-                       'and injectivity queries over ALL ids below 2^24 (integer encoding, div/rem by the table lengths).' % len(named),
-        'obligations': len(queries) + 1, 'discharged': res.queries.get('unsat', 0),
-        'evaluations': len(queries) + 1, 'distinct_nontrivial': len(queries),
-        'paths': len(done), 'reachable_name_lengths': sorted(set(t[0] for t in named)),
-        'executor': {k: v for k, v in exe.stats.items() if k != 'calls'},
-    })
-    return res.finish()
+    totals['queries'] += len(queries) + 1
+    totals['paths'] += len(done)
+    res.coverage.setdefault('reachable_name_lengths', {})[producer] = sorted(set(t[0] for t in named))
 
 
 def replay(path):
     d = json.load(open(path))
+    if 'elements' in d['replay']:
+        bad = e2e_replay(d['replay']['id'])
+        print(bad[:3])
+        return 1 if bad else 0
     r = common.replay(['get-var-name', str(d['replay']['id'])])
     print(r.stdout.strip())
     name = json.loads(r.stdout)[0]
